@@ -152,7 +152,24 @@ impl<'c> Slice<'c> {
             }
         }
 
+        // Names are only generated for containers that do not preserve them. Otherwise, a missing
+        // name is a record without a name (`*`).
+        let unnamed_record_indices: Vec<_> = if compression_header
+            .preservation_map()
+            .records_have_names()
+        {
+            (0..records.len())
+                .filter(|&i| records[i].name.is_none())
+                .collect()
+        } else {
+            Vec::new()
+        };
+
         resolve_mates(&mut records)?;
+
+        for i in unnamed_record_indices {
+            records[i].name = None;
+        }
 
         Ok(records)
     }
